@@ -2,7 +2,8 @@ package main
 
 // File system of C02: one regular file R/f, a second name R/g, up to 3 handle
 // slots; every operation is executed on the real MemFS/OrefaFS and, in
-// lock-step, on *os.File / package os in a tmpfs scratch directory.
+// lock-step, on *os.File / package os in a tmpfs scratch directory. The file
+// starts fresh (one WriteFile) or with a history of its own (start.go).
 
 import (
 	"encoding/json"
@@ -12,6 +13,7 @@ import (
 	"path/filepath"
 	"reflect"
 	"sort"
+	"strconv"
 	"strings"
 	"syscall"
 
@@ -348,6 +350,8 @@ type fsys struct {
 	diff    map[string]bool
 	trace   bool
 	initErr error
+	start   []prepStep // nil: the file is created with its content by one WriteFile
+	preViol *bfs.Viol  // the two sides already differ in the start state (history starts only)
 }
 
 func (s *fsys) NumOps() int           { return len(s.ops) }
@@ -411,14 +415,17 @@ func (s *fsys) Reset() error {
 	}
 
 	s.closeHandles()
+	s.preViol = nil
 	_ = os.Chdir("/")
 
 	if err := cleanDir(s.R); err != nil {
 		return err
 	}
 
-	if err := os.WriteFile(s.fp, []byte(s.content), 0o644); err != nil {
-		return err
+	if s.start == nil {
+		if err := os.WriteFile(s.fp, []byte(s.content), 0o644); err != nil {
+			return err
+		}
 	}
 
 	if err := os.Chdir(s.R); err != nil {
@@ -432,8 +439,10 @@ func (s *fsys) Reset() error {
 		return fmt.Errorf("avfs MkdirAll(R): %v", err)
 	}
 
-	if err := s.v.WriteFile(s.fp, []byte(s.content), 0o644); err != nil {
-		return fmt.Errorf("avfs WriteFile(f): %v", err)
+	if s.start == nil {
+		if err := s.v.WriteFile(s.fp, []byte(s.content), 0o644); err != nil {
+			return fmt.Errorf("avfs WriteFile(f): %v", err)
+		}
 	}
 
 	if err := s.v.Chdir(s.R); err != nil {
@@ -442,13 +451,32 @@ func (s *fsys) Reset() error {
 
 	s.diff = map[string]bool{}
 
+	if s.start != nil {
+		if err := s.prologue(); err != nil {
+			return err
+		}
+
+		if s.preViol != nil {
+			s.observeKernel()
+
+			return nil
+		}
+	}
+
 	ki, vi, poisoned := s.observe()
-	if poisoned {
+	if poisoned && s.start == nil {
 		return fmt.Errorf("initial observation of the emulated file system panicked")
 	}
 
 	for i := range ki {
 		if ki[i].val != vi[i].val {
+			if s.start != nil {
+				// the calls of the prologue answered alike but left different files behind
+				s.startDiffers("observation "+ki[i].label, diffClass(ki[i].kind, ki[i].val, vi[i].val), ki[i].val, vi[i].val)
+
+				return nil
+			}
+
 			return fmt.Errorf("initial states differ at %s: kernel %s, avfs %s", ki[i].label, ki[i].val, vi[i].val)
 		}
 	}
@@ -1001,6 +1029,15 @@ func (s *fsys) Step(i int) bfs.StepResult {
 	o := s.ops[i]
 	keyBefore := s.key
 
+	if s.preViol != nil {
+		// the start state itself is the counterexample: nothing behind it is comparable
+		if s.trace {
+			fmt.Printf("  %-46s VIOL   %s %s\n", "", kf.Sig(s.preViol.Sig), s.preViol.Detail)
+		}
+
+		return bfs.StepResult{Key: s.key, Broken: true, Outcome: "start-state/differs", Viols: []bfs.Viol{*s.preViol}}
+	}
+
 	var (
 		sl     *slot
 		hclass = "-"
@@ -1297,10 +1334,19 @@ func diffClass(kind, k, v string) string {
 
 	switch kind {
 	case "content":
+		// lengths in bytes, not of the quoted rendering (a gap of zeros is 4 characters per byte there)
+		kl, vl := len(ks[1]), len(vs[1])
+
+		if ku, err := strconv.Unquote(ks[1]); err == nil {
+			if vu, err := strconv.Unquote(vs[1]); err == nil {
+				kl, vl = len(ku), len(vu)
+			}
+		}
+
 		switch {
-		case len(vs[1]) < len(ks[1]):
+		case vl < kl:
 			return "avfs-shorter"
-		case len(vs[1]) > len(ks[1]):
+		case vl > kl:
 			return "avfs-longer"
 		}
 
